@@ -2,9 +2,9 @@
 import os
 from vlib.core import MachineryError
 
-FAMILIES_ALL = ["member_self", "member_restricted", "member_other", "member_tpi", "structure",
+FAMILIES_ALL = ["versions", "member_self", "member_restricted", "member_other", "member_tpi", "structure",
                 "generic", "create", "pl0", "pl1", "pl2"]
-FAMILIES_PL = ["pl0", "pl1", "pl2"]
+FAMILIES_PL = ["versions", "pl0", "pl1", "pl2"]
 
 INVS = "AcceptedImpliesNoEsc BannedNeverPasses NoCreateNoPass MixedNeverPass OnlyNeededState Emit"
 
